@@ -20,7 +20,7 @@ from ..pattern import C, G, V, add, call, div, find_match, match, mul, neg, norm
 from ..terms import Term, alts, contains, ends_with_attrs, root_of, show, subterms
 from ..util import calls_in, deep_subterms, module_const, nodes_in
 from .c01 import _check_sources
-from .common import EST, check_weights_pipeline, estimator_sinks, weights_arg
+from .common import EST, check_weights_pipeline, dispatch_table, estimator_sinks, weights_arg
 
 P = "C02"
 
@@ -342,15 +342,7 @@ def c02_6(ctx: Ctx) -> RuleResult:
     X = ctx.X
     for impl in ctx.repo.implementations(EST, "calculate_gradient"):
         c = impl.cls
-        methods = {}
-        for n in nodes_in(impl, ast.If):
-            tt = X.at(impl, n.test)
-            if tt[0] == "cmp" and tt[1] == "==" and tt[3][0] == "const":
-                for r_ in [x for s in n.body for x in ast.walk(s) if isinstance(x, ast.Return)]:
-                    rv = X.at(impl, r_.value)
-                    hs = ctx.cg.resolve_fn(rv[1], impl) if rv[0] == "call" else []
-                    if hs:
-                        methods[tt[3][1]] = hs[0]
+        methods = dispatch_table(ctx, impl)
         if "mean" in methods:
             h = methods["mean"]
             ps = [p for p in h.positional if p != "self"]
@@ -383,9 +375,18 @@ def c02_6(ctx: Ctx) -> RuleResult:
                         main = m
             ok = main is not None
             if ok:
-                # nrm, mean, sd are the three components of the helper
                 comps = {k: main[k] for k in ("nrm", "mean", "sd")}
-                ok = all(v[0] == "item" for v in comps.values()) and [comps["nrm"][2], comps["mean"][2], comps["sd"][2]] == [0, 1, 2]
+                if all(v[0] == "item" and v[1][0] == "call" for v in comps.values()):
+                    # nrm, mean, sd are the three components returned by one helper (checked by C01.5)
+                    ok = [comps["nrm"][2], comps["mean"][2], comps["sd"][2]] == [0, 1, 2] and len({v[1] for v in comps.values()}) == 1
+                else:
+                    # written out (or a transparent helper): sd == sqrt(nrm * dot((F - mean)^2, w)) with the same nrm and mean
+                    ref_sd = ("binop", "**", mul(comps["nrm"], call("numpy.dot", ("binop", "**", add(fv, neg(V("m"))), C(2)), w)), C(0.5))
+                    m2 = match(comps["sd"], ref_sd)
+                    core = m2["m"] if m2 is not None else None
+                    while core is not None and core[0] == "sub":
+                        core = core[1]
+                    ok = m2 is not None and core == comps["mean"] and m2["f"] == main["f"]
             res.add(h, h.node, "stddev gradient == (B/stddev) * (dot(grad, values*weights) - mean * dot(grad, weights))", ok,
                     "" if ok else f"stddev gradient is `{show(rt, 200)}`", construct=f"{c.name}: stddev gradient")
             zero = any(a[0] == "ifexp" and match(a[2] if False else norm(a[2]), call("numpy.zeros", V("_"), dtype=V("_"))) is not None for a in alts(rt)) or any(
@@ -423,16 +424,14 @@ def c02_7(ctx: Ctx) -> RuleResult:
                 mask_p = ("param", f.qualname, p)
         if mask_p is None:
             raise AnalysisError("mask parameter not found in the gradient computation")
+        is_exp = lambda a: _expanded_inner(ctx, f, a, mask_p) is not None  # noqa: E731
         for name in ("weighted_objective", "objectives", "constraints"):
             v = kw.get(name)
             if v is None:
                 res.add(f, c, f"Gradients.{name} is passed", False, construct=f"{f.name}: {name} passed")
                 continue
-            exp_calls = [a for a in _value_alts(v) if a[0] == "call"]
-            ok = bool(exp_calls)
-            for a in exp_calls:
-                hs = ctx.cg.resolve_fn(a[1], f)
-                ok = ok and bool(hs) and all(_is_expander(ctx, h) for h in hs) and len(a[2]) == 2 and a[2][1] == mask_p
+            inner_of = [_expanded_inner(ctx, f, a, mask_p) for a in _value_alts(v, is_exp)]
+            ok = bool(inner_of) and all(x is not None for x in inner_of)
             res.add(f, c, f"Gradients.{name} is expanded to full width with zeros at the fixed variables, using the variable mask", ok,
                     "" if ok else f"`{name}` is `{show(v, 80)}`: entries of fixed variables are not exactly zero / misplaced", construct=f"{f.name}: expand {name}")
         # restriction before the solve
@@ -451,9 +450,8 @@ def c02_7(ctx: Ctx) -> RuleResult:
         # weighted objective gradient
         wo = kw.get("weighted_objective")
         inner = None
-        for a in alts(wo) if wo else []:
-            if a[0] == "call" and a[2]:
-                inner = a[2][0]
+        for a in _value_alts(wo, is_exp) if wo else []:
+            inner = _expanded_inner(ctx, f, a, mask_p) or inner
         ok = False
         if inner is not None:
             n_ = norm(inner)
@@ -462,21 +460,48 @@ def c02_7(ctx: Ctx) -> RuleResult:
             m = match(n_, ref) or match(n_, ref[2][0])
             if m is not None:
                 og = kw.get("objectives")
-                ok = any(a[0] == "call" and a[2] and norm(a[2][0]) == m["g"] for a in alts(og))
+                ok = any(norm(_expanded_inner(ctx, f, a, mask_p) or NONE_T) == m["g"] for a in _value_alts(og, is_exp))
         res.add(f, c, "weighted-objective gradient == sum_k objective_weight_k * objective_gradient_k (axis 0) of the reported objective gradients", ok,
                 "" if ok else f"weighted gradient is `{show(inner, 120) if inner else '?'}`", construct=f"{f.name}: weighted gradient")
     res.floor = 6
     return res
 
 
-def _value_alts(t: Term) -> list:
+def _value_alts(t: Term, stop=None) -> list:
     out = []
     for a in alts(t):
-        if a[0] == "ifexp":
-            out += _value_alts(a[2]) + _value_alts(a[3])
+        if a[0] == "ifexp" and not (stop is not None and stop(a)):
+            out += _value_alts(a[2], stop) + _value_alts(a[3], stop)
         elif a != ("const", None):
             out.append(a)
     return out
+
+
+NONE_T = ("const", None)
+
+
+def _expanded_inner(ctx: Ctx, f: Func, a: Term, mask_p: Term):
+    """``a`` is `g if mask is None else zeros(g.shape[:-1] + (mask.size,))[..., mask] := g`
+    (written in place or through a helper): returns g, else None."""
+    if a[0] == "call":
+        hs = ctx.cg.resolve_fn(a[1], f)
+        if hs and all(_is_expander(ctx, h) for h in hs) and len(a[2]) == 2 and a[2][1] == mask_p:
+            return a[2][0]
+        return None
+    if a[0] != "ifexp":
+        return None
+    test, x, y = a[1], a[2], a[3]
+    if test == ("cmp", "is not", mask_p, NONE_T):
+        x, y = y, x
+    elif test != ("cmp", "is", mask_p, NONE_T):
+        return None
+    if y[0] != "update" or y[2] != ("root",):
+        return None
+    base, idx, val = y[1], y[3], y[4]
+    zeros = base[0] == "call" and base[1] == ("global", "numpy.zeros") and contains(base, lambda s: s == ("attr", mask_p, "size"))
+    if zeros and idx == ("tuple", (("const", Ellipsis), mask_p)) and val == x:
+        return x
+    return None
 
 
 def _is_expander(ctx: Ctx, h: Func) -> bool:
